@@ -55,6 +55,7 @@ pub enum Op {
     DisconnectClose,
     DisconnectHandle,
     DisconnectDrop,
+    DisconnectMute,
     Connect,
     /// a message kind newer than the sender's negotiated version
     TooNew,
@@ -168,7 +169,7 @@ impl Gen {
     }
 
     fn alive(&self, m: &Model) -> Vec<usize> {
-        (0..m.conns.len()).filter(|&c| m.conns[c].state == ConnState::Alive).collect()
+        (0..m.conns.len()).filter(|&c| matches!(m.conns[c].state, ConnState::Alive | ConnState::Mute)).collect()
     }
 
     fn pick_obj_cookie(&mut self, m: &Model, prefer_owner: Option<usize>) -> ObjectCookie {
@@ -659,6 +660,13 @@ impl Gen {
                     return None;
                 }
                 return Some(Input::DropFuture(c));
+            }
+            Op::DisconnectMute => {
+                // at most one half-open connection at a time keeps the state set small
+                if m.conns.iter().any(|x| x.state == ConnState::Mute) {
+                    return None;
+                }
+                return Some(Input::WriteFault(c));
             }
             Op::TooNew => {
                 let sc = self.pick_svc_cookie(m, None);
